@@ -24,6 +24,7 @@ import (
 
 type boardStats struct {
 	FollowerReads, ConcurrentReads, ContentsCompared                                                int
+	SameHandleHistories                                                                             int
 	Ops, Histories, Sends, Reads, MaxWriters, DistinctSizes, ProcessHistories, DefaultLockHistories int
 	OutcomeHist                                                                                     map[string]int
 	Monitors                                                                                        []string
@@ -582,6 +583,118 @@ func runBoardDiff(outDir string, seed int64, tier string) {
 				}
 			}
 		}()
+		// a node's handle: the poller reads through the very handle the node's own requests send through (one FileStorage
+		// per node process: tick() calls GetMessages, StartDKG / ProposeSignMessages / executeOperation / SendMessage call Send),
+		// while another node writes through its own handle. Every message must still get the offset of its position, and every
+		// read must be the entries from its offset on.
+		if h%4 == 0 {
+			func() {
+				path3 := filepath.Join(dir, "node.txt")
+				lock3 := filepath.Join(dir, "node.lock")
+				own, err := file_storage.NewFileStorage(path3, lock3)
+				if err != nil {
+					return
+				}
+				defer own.Close()
+				other, err := file_storage.NewFileStorage(path3, lock3)
+				if err != nil {
+					return
+				}
+				defer other.Close()
+				const perWriter = 150
+				done := make(chan struct{})
+				var wg sync.WaitGroup
+				var sendErrs, readErrs []string
+				var mu sync.Mutex
+				for wi, hd := range []storage.Storage{own, other} {
+					wg.Add(1)
+					go func(wi int, hd storage.Storage) {
+						defer wg.Done()
+						for k := 0; k < perWriter; k++ {
+							if err := hd.Send(storage.Message{DkgRoundID: "node", Event: fmt.Sprintf("n%d-%d-%d", h, wi, k), Data: bytes.Repeat([]byte{'y'}, 20+(k*37)%400)}); err != nil {
+								mu.Lock()
+								sendErrs = append(sendErrs, err.Error())
+								mu.Unlock()
+								return
+							}
+						}
+					}(wi, hd)
+				}
+				type readRes struct {
+					from uint64
+					msgs []storage.Message
+				}
+				var reads []readRes
+				pollDone := make(chan struct{})
+				go func() {
+					defer close(pollDone)
+					var next uint64
+					for {
+						select {
+						case <-done:
+							return
+						default:
+						}
+						msgs, err := own.GetMessages(next)
+						if err != nil {
+							mu.Lock()
+							readErrs = append(readErrs, err.Error())
+							mu.Unlock()
+							continue
+						}
+						reads = append(reads, readRes{next, msgs})
+						if len(msgs) > 0 {
+							next += uint64(len(msgs))
+						}
+					}
+				}()
+				wg.Wait()
+				close(done)
+				<-pollDone
+				st.SameHandleHistories++
+				es, err := readBoard(path3)
+				if err != nil {
+					st.Monitors = append(st.Monitors, fmt.Sprintf("C16 unreadable_file: node-handle history %d: %v", h, err))
+					return
+				}
+				for _, e := range sendErrs {
+					st.Monitors = append(st.Monitors, fmt.Sprintf("C16 send_failed: node-handle history %d: %s", h, truncate(e, 160)))
+				}
+				if len(es) != 2*perWriter && len(sendErrs) == 0 {
+					st.Monitors = append(st.Monitors, fmt.Sprintf("C16 exactly_once: node-handle history %d: %d messages sent, %d lines in the log", h, 2*perWriter, len(es)))
+				}
+				bad := 0
+				for pos, e := range es {
+					st.Sends++
+					if int(e.Offset) != pos {
+						bad++
+						if bad <= 2 {
+							st.Monitors = append(st.Monitors, fmt.Sprintf("C16 offset_eq_position: node-handle history %d (a poller reading through the handle its own process sends through, a second writer on its own handle): the entry at position %d carries offset %d", h, pos, e.Offset))
+						}
+					}
+				}
+				if bad > 2 {
+					st.Monitors = append(st.Monitors, fmt.Sprintf("C16 offset_eq_position: node-handle history %d: %d of %d entries carry an offset that is not their position", h, bad, len(es)))
+				}
+				if len(readErrs) > 0 {
+					st.Monitors = append(st.Monitors, fmt.Sprintf("C16 read_suffix: node-handle history %d: %d reads through the sending handle failed, first: %s", h, len(readErrs), truncate(readErrs[0], 160)))
+				}
+				wrong := 0
+				for _, r := range reads {
+					st.Reads++
+					for i, m := range r.msgs {
+						pos := int(r.from) + i
+						if pos >= len(es) || es[pos].ID != m.ID {
+							wrong++
+							if wrong == 1 {
+								st.Monitors = append(st.Monitors, fmt.Sprintf("C16 read_suffix: node-handle history %d: GetMessages(%d) through the sending handle returned at index %d a message that is not the entry at position %d", h, r.from, i, pos))
+							}
+							break
+						}
+					}
+				}
+			}()
+		}
 		os.RemoveAll(dir)
 		os.Remove(dir + "-link")
 		os.Remove(dir + "-link")
